@@ -73,9 +73,36 @@ def canon_children(tok):
     return [tree.canon(c) for c in (tok.children or [])]
 
 
-def law_quote(x, marker, ts):
+def parse_plain_setext_off(x, ts):
+    """Counterfactual for finding C04-setext-in-quote: the plain text parsed the way quote content is parsed today, i.e.
+    starting with setext recognition switched off (the one internal knob the defect consists of).  If the knob is gone the
+    classifier simply attributes nothing."""
+    from mistletoe import block_token
+    P = block_token.Paragraph
+    if not hasattr(P, 'parse_setext'):
+        raise LookupError('Paragraph.parse_setext no longer exists')
+    old = P.parse_setext
+
+    class _Doc(block_token.Document):
+        pass
+    cls = mt.renderer_class(ts) if ts else None
+    try:
+        if cls is not None:
+            with cls():
+                mt.scrub()
+                P.parse_setext = False
+                return mt.Document(x)
+        mt.scrub()
+        P.parse_setext = False
+        return mt.Document(x)
+    finally:
+        P.parse_setext = old
+        mt.reset()
+
+
+def law_quote(x, marker, ts, emulate_setext_off=False):
     """Returns None when the law holds, else (clause, key, detail)."""
-    plain = parse(x, ts)
+    plain = parse_plain_setext_off(x, ts) if emulate_setext_off else parse(x, ts)
     emb = parse(quote_embed(x, marker), ts)
     want = canon_children(plain)
     kids = list(emb.children or [])
@@ -110,33 +137,39 @@ def law_list(x, marker, pad, ts):
 UNDERLINE = re.compile(r'^[> ]*[=-]+ *$')
 
 
-def setext_underline_lines(x, ts):
-    """1-based numbers of the underline lines of the SetextHeading tokens the real parser finds in x:
-    the first line after the heading's start that is an underline once quote markers are dropped
-    (content lines of a setext heading can never look like that themselves)."""
+def setext_starts(x, ts):
     doc = parse(x, ts)
-    lines = x.split('\n')
-    out = []
-    for tok, parent, depth in tree.walk(doc):
-        if type(tok).__name__ == 'SetextHeading' and isinstance(tok.line_number, int):
-            for n in range(tok.line_number + 1, len(lines) + 1):
-                if UNDERLINE.match(lines[n - 1]):
-                    out.append(n)
-                    break
-    return out
+    return [tok.line_number for tok, parent, depth in tree.walk(doc)
+            if type(tok).__name__ == 'SetextHeading' and isinstance(tok.line_number, int)]
+
+
+def blank_underline(line):
+    stripped = re.sub(r'[=-]+ *$', '', line)
+    return stripped.rstrip() if stripped.strip() else ''
 
 
 def neutralise_setext(x, ts):
-    """Counterfactual neutraliser: blank out the underline of every setext heading (keeping container
-    markers), which removes exactly the trigger of the known defect."""
-    nums = setext_underline_lines(x, ts)
-    if not nums:
+    """Counterfactual neutraliser: blank out the underline of every setext heading (keeping container markers), which
+    removes exactly the trigger of the known defect.  The underline of a heading that starts on line s is found
+    experimentally: the first underline-looking line after s whose blanking makes the real parser stop reporting a
+    setext heading at s (a content line indented by four or more columns may look like an underline without being one)."""
+    starts = setext_starts(x, ts)
+    if not starts:
         return None
     lines = x.split('\n')
-    for n in nums:
-        stripped = re.sub(r'[=-]+ *$', '', lines[n - 1])
-        lines[n - 1] = stripped.rstrip() if stripped.strip() else ''
+    for s_line in sorted(set(starts), reverse=True):
+        for n in range(s_line + 1, len(lines) + 1):
+            if not UNDERLINE.match(lines[n - 1]):
+                continue
+            trial = list(lines)
+            trial[n - 1] = blank_underline(trial[n - 1])
+            after = setext_starts('\n'.join(trial), ts)
+            if s_line not in after and len(after) == len(setext_starts('\n'.join(lines), ts)) - 1:
+                lines = trial
+                break
     y = '\n'.join(lines)
+    if setext_starts(y, ts):
+        return None            # could not remove every trigger: do not attribute
     # keep the neutralised witness inside the domain
     while y.endswith('\n\n'):
         y = y[:-1]
@@ -172,11 +205,10 @@ def classify(clause, key, case, detail):
                     return 'C04-unicode-whitespace'
                 y = z
                 used.append('C04-unicode-whitespace')
-        if 'C04-setext-in-quote' in fids and case['law'] == 'quote':
-            z = neutralise_setext(y, ts)
-            if z is not None and not in_domain(z):
-                if law(case, z) is None:
-                    return 'C04-setext-in-quote'
+        if 'C04-setext-in-quote' in fids and case['law'] == 'quote' and setext_starts(y, ts):
+            # attributed iff the quoted tree is exactly what the plain text gives with setext recognition off
+            if law_quote(y, case['marker'], ts, emulate_setext_off=True) is None:
+                return 'C04-setext-in-quote'
     except Exception:
         return None
     return None
@@ -297,3 +329,8 @@ def replay(ctx, case):
         r = law_list(case['x'], case['marker'], case['pad'], ts)
     if r:
         ctx.violation(r[0], case['law'] + ': ' + r[1], case, **r[2])
+
+
+import os as _os  # noqa: E402
+if _os.environ.get('VERIF_NO_PINNED'):
+    PINNED = []
